@@ -44,6 +44,7 @@ Inductive pred :=
 | PIn (c : nat) (ks : list Z)
 | PIsNull (c : nat)
 | PNotNull (c : nat)
+| PInCells (c : nat) (vs : list cell)      (* c IN (subquery values): NULLs in the list make a miss unknown *)
 | PAnd (p q : pred)
 | POr (p q : pred)
 | PNot (p : pred).
@@ -75,6 +76,12 @@ Fixpoint eval (p : pred) (r : row) : option bool :=
   | PIn c ks => option_map (fun v => existsb (Z.eqb v) ks) (nth c r None)
   | PIsNull c => Some (is_none (nth c r None))
   | PNotNull c => Some (negb (is_none (nth c r None)))
+  | PInCells c vs =>
+      match nth c r None with
+      | None => None
+      | Some v => if existsb (fun x => match x with Some y => v =? y | None => false end) vs then Some true
+                  else if existsb is_none vs then None else Some false
+      end
   | PAnd p q => and3 (eval p r) (eval q r)
   | POr p q => or3 (eval p r) (eval q r)
   | PNot p => option_map negb (eval p r)
@@ -82,6 +89,28 @@ Fixpoint eval (p : pred) (r : row) : option bool :=
 
 Definition holds (p : pred) (r : row) : bool := match eval p r with Some true => true | _ => false end.
 Definition select (p : pred) (rows : list row) : list row := filter (holds p) rows.
+
+(* SELECT [DISTINCT] cols ... [LIMIT n] on top of a filtered row list *)
+Fixpoint row_eqb (a b : row) : bool :=
+  match a, b with
+  | [], [] => true
+  | x :: a', y :: b' => cmp_is_eq (cmp_cell x y) && row_eqb a' b'
+  | _, _ => false
+  end.
+Fixpoint dedup_rows (l : list row) : list row :=
+  match l with
+  | [] => []
+  | x :: l' => x :: filter (fun y => negb (row_eqb x y)) (dedup_rows l')
+  end.
+Definition shape (proj : option (list nat)) (distinct : bool) (limit : option nat) (rows : list row) : list row :=
+  let r1 := match proj with Some cols => map (fun r => map (fun c => nth c r None) cols) rows | None => rows end in
+  let r2 := if distinct then dedup_rows r1 else r1 in
+  match limit with Some n => firstn n r2 | None => r2 end.
+
+(* SELECT col, COUNT( * ) ... GROUP BY col *)
+Definition group_count (c : nat) (rows : list row) : list row :=
+  map (fun k => [k; Some (Z.of_nat (length (filter (fun r => cmp_is_eq (cmp_cell (nth c r None) k)) rows)))])
+      (map (fun r => nth 0 r None) (dedup_rows (map (fun r => [nth c r None]) rows))).
 
 (* ---- joins: the nested-loop join on SQL equality of the join keys ---- *)
 Definition nl_join (left_outer : bool) (L R : side) : list (row * option row) :=
